@@ -251,3 +251,57 @@ CASES = [
          new="""        let lifted = self.v + P;
         FiniteField::new((lifted - rhs.v) % P)"""),
 ]
+
+ITE = "src/builder/cache/ite.rs"
+CASES += [
+    dict(name="st-reorder-forgets-neg", file=ITE, rule="ST", props=["C01", "C03", "C16"], expect="ite-preserved",
+         old="""            (f, g, h) if h.is_true() && order(g, f) => (g.neg(), f.neg(), h),""",
+         new="""            (f, g, h) if h.is_true() && order(g, f) => (g.neg(), f, h),"""),
+    dict(name="st-compl-choice-wrong-branch", file=ITE, rule="ST", props=["C01", "C16"], expect="ite-preserved",
+         old="""            (f, g, h) if f.is_neg() && h.is_neg() => IteComplChoice {
+                f: f.neg(),
+                g: h.neg(),
+                h: g.neg(),
+            },""",
+         new="""            (f, g, h) if f.is_neg() && h.is_neg() => IteComplChoice {
+                f: f.neg(),
+                g: g.neg(),
+                h: h.neg(),
+            },"""),
+    dict(name="st-constant-intro", file=ITE, rule="ST", props=["C01"], expect="ite-preserved",
+         old="""            (f, g, h) if f == h.neg() => (f, g, T::true_ptr()),""",
+         new="""            (f, g, h) if f == h.neg() => (f, g, T::false_ptr()),"""),
+    dict(name="ok-st-drop-a-reorder-case", file=ITE, rule="ST", props=["C01"], expect=None,
+         old="""            (f, g, h) if g.is_false() && order(h, f) => (h.neg(), g, f.neg()),
+""", new=""""""),
+    dict(name="sh-shannon-children-swapped", file=B, rule="SH", props=["C01"], expect="SH1",
+         old="""        let node = BddNode::new(lbl, f, t);""", new="""        let node = BddNode::new(lbl, t, f);"""),
+    dict(name="sh-cofactor-selection", file=B, rule="SH", props=["C01"], expect="condition_essential:SH2",
+         old="""                let r = if v { f.high_raw() } else { f.low_raw() };""",
+         new="""                let r = if v { f.low_raw() } else { f.high_raw() };"""),
+    dict(name="sh-implied-literal-position", file=DN, rule="SH", props=["C06"], expect="conjoin_implied:SH3",
+         old="""            let node = if l.polarity() {
+                BddNode::new(l.label(), BddPtr::false_ptr(), sub)
+            } else {
+                BddNode::new(l.label(), sub, BddPtr::false_ptr())
+            };
+            sub = self.get_or_insert(node);""",
+         new="""            let node = if l.polarity() {
+                BddNode::new(l.label(), sub, BddPtr::false_ptr())
+            } else {
+                BddNode::new(l.label(), BddPtr::false_ptr(), sub)
+            };
+            sub = self.get_or_insert(node);"""),
+    dict(name="sh-decision-children-swapped", file=DN, rule="SH", props=["C06"], expect="SH4",
+         old="""            let bdd = BddNode::new(cur_v, low_bdd, high_bdd);""", new="""            let bdd = BddNode::new(cur_v, high_bdd, low_bdd);"""),
+    dict(name="sh-fold-literal-pairing", file=RB, rule="SH", props=["C07"], expect="SH5:literal-child-pairing",
+         old="""                        let and_low = f(DDNNF::And(lit_low, low_v));
+                        let and_high = f(DDNNF::And(lit_high, high_v));""",
+         new="""                        let and_low = f(DDNNF::And(lit_high, low_v));
+                        let and_high = f(DDNNF::And(lit_low, high_v));"""),
+    dict(name="cc-clause-with-and", file=SB, rule="SH", props=["C05"], expect="CC:clause",
+         old="""                let var = SddPtr::Var(vlabel, val);
+                bdd = self.or(bdd, var);""",
+         new="""                let var = SddPtr::Var(vlabel, val);
+                bdd = self.and(bdd, var);"""),
+]
